@@ -36,7 +36,7 @@ func genWalletCase(rng *rand.Rand, idx int) WalletCase {
 }
 
 func phaseWallet(r *mon.Run) {
-	n := r.Pick(12, 120)
+	n := r.Pick(40, 300)
 	for i := 0; i < n; i++ {
 		c := genWalletCase(r.RNG(0xF000+uint64(i)), i)
 		if i == 0 {
